@@ -327,3 +327,55 @@ package trace
 //@   loop#2 invariant 0 <= i && i <= len(s) && count <= limit
 //@   assert@return#2 : runes_upto(s, i) == limit
 //@   assert@return#3 : count == runes_upto(s, len(s)) && count <= limit
+
+// ======================================================================== C15 provider lifecycle
+//@ spec procs(p *TracerProvider) spanProcessorStates = p.getSpanProcessors()
+//@ spec registered(l spanProcessorStates, sp SpanProcessor) bool = exists i in 0 .. len(l) : l[i] != nil && l[i].sp == sp
+
+// Unregister: a processor that is not registered changes nothing; otherwise exactly its (last) entry is removed and the
+// others keep their order; the old list object is not written (copy-on-write)
+//@ func (p *TracerProvider) UnregisterSpanProcessor(sp SpanProcessor)
+//@   prop C15
+//@   acquires p.mu
+//@   unchecked frame a new list is published through an atomic pointer; sync.Once state of the removed entry
+//@   requires p != nil && sp != nil && p.spanProcessors.v != 0 && (forall i in 0 .. len(procs(p)) : procs(p)[i] != nil)
+//@   ensures !old(p.isShutdown.v != 0) && !old(registered(procs(p), sp)) ==> len(procs(p)) == old(len(procs(p))) && (forall i in 0 .. len(procs(p)) : procs(p)[i] == old(procs(p)[i]))
+//@   ensures !old(p.isShutdown.v != 0) && old(registered(procs(p), sp)) ==> len(procs(p)) == old(len(procs(p))) - 1
+//@   loop#1 invariant (stopOnce == nil && (forall q in 0 .. $k : spss[q].sp != sp)) || (stopOnce != nil && 0 <= idx && idx < $k && spss[idx] == stopOnce && spss[idx].sp == sp)
+//@   loop#1 invariant forall q in 0 .. len(spss) : spss[q] != nil && spss[q] == old(procs(p)[q])
+
+// Register: new list = old list followed by a fresh state for sp
+//@ func (p *TracerProvider) RegisterSpanProcessor(sp SpanProcessor)
+//@   prop C15
+//@   acquires p.mu
+//@   unchecked frame a new list is published through an atomic pointer
+//@   requires p != nil && p.spanProcessors.v != 0
+//@   ensures !old(p.isShutdown.v != 0) ==> len(procs(p)) == old(len(procs(p))) + 1 && procs(p)[len(procs(p))-1].sp == sp && (forall i in 0 .. old(len(procs(p))) : procs(p)[i] == old(procs(p)[i]))
+//@   ensures old(p.isShutdown.v != 0) ==> p.spanProcessors.v == old(p.spanProcessors.v)
+
+// simple span processor: the exporter is only ever called with the lock held, for sampled spans, and never when it is nil
+//@ guarded_by simpleSpanProcessor.exporterMu: exporter
+//@ func (ssp *simpleSpanProcessor) OnEnd(s ReadOnlySpan)
+//@   prop C15 C09
+//@   acquires ssp.exporterMu
+//@   requires ssp != nil && s != nil
+//@   assert@call ExportSpans#1 : holds(ssp.exporterMu) && s.SpanContext().traceFlags & 1 == 1
+//@ func (ssp *simpleSpanProcessor) Shutdown(ctx context.Context) (err error)
+//@   prop C15
+//@   acquires simpleSpanProcessor.exporterMu
+//@   unchecked frame channel and goroutine plumbing
+//@   requires ssp != nil && ctx != nil
+
+// Shutdown: only the call that wins the compare-and-swap does anything (a second call is a no-op returning nil); when it
+// completes normally the processor list is empty; each processor is shut down through its sync.Once (at most once over
+// Unregister and Shutdown together - sync.Once semantics assumed).
+//@ func (p *TracerProvider) Shutdown(ctx context.Context) (err error)
+//@   prop C15
+//@   acquires p.mu
+//@   unchecked frame a new list is published through an atomic pointer; sync.Once states of the entries
+//@   requires p != nil && ctx != nil && p.spanProcessors.v != 0 && (forall i in 0 .. len(procs(p)) : procs(p)[i] != nil && procs(p)[i].sp != nil)
+//@   ensures old(p.isShutdown.v != 0) ==> err == nil && p.spanProcessors.v == old(p.spanProcessors.v)
+//@   ensures p.isShutdown.v != 0
+//@   assert@return#4 : len(procs(p)) == 0
+//@   canary@return#3 KF-C15-shutdown-cancelled-ctx : len(procs(p)) == 0
+//@   loop#1 invariant p.isShutdown.v != 0 && p.spanProcessors.v == old(p.spanProcessors.v)
